@@ -12,5 +12,7 @@ ENGINES = {
     "C08": ("vf.engines.nesting", {}),
     "C06": ("vf.engines.values", {}),
     "C14": ("vf.engines.values", {}),
+    "C16": ("vf.engines.ops", {}),
+    "C17": ("vf.engines.ext", {}),
 }
 PROPS = sorted(ENGINES)
